@@ -69,6 +69,10 @@ def add_data_vars(rng, ds, kinds, *, n_extra_max=2, allow_time=True, names_prefi
             elif dt == 'i4fill':
                 data = data.astype('i4')
                 attrs['_FillValue'] = numpy.int32(-999)
+            elif dt == 'i4fill0':
+                # zero is the fill value (no genuine zero among the data: the counter starts at 1)
+                data = data.astype('i4')
+                attrs['_FillValue'] = numpy.int32(0)
             elif dt == 'i4missing':
                 data = data.astype('i4')
                 attrs['missing_value'] = numpy.int32(-999)
@@ -525,7 +529,9 @@ def ugrid(rng, *, w=None, h=None, start_index=None, fill=None, transposed=None, 
         variables['Mesh2_edge_faces'] = t
         mesh_attrs['edge_face_connectivity'] = 'Mesh2_edge_faces'
     has_edge_dim = bool({'edge_node', 'edge_face'} & supplied)
-    if edge_dim_declared or (transposed and has_edge_dim):
+    # a face_edge table only means something when the mesh has edges: the edge dimension is then declared or implied
+    # (UGRID requires it; without any edge dimension emsarray cannot even take the geometry inventory of such a file)
+    if edge_dim_declared or (transposed and has_edge_dim) or ('face_edge' in supplied and not has_edge_dim):
         mesh_attrs['edge_dimension'] = edim
         has_edge_dim = True
     if 'face_edge' in supplied:
